@@ -224,7 +224,8 @@ impl<const L: bool> EventSource for Probe<L> {
         let prev = self.sh.cur_proc.replace(Some(self.id));
         self.sh.forced.set(None);
         let mut res: Result<PostAction, BoxErr> = Ok(PostAction::Continue);
-        if self.take_fail(|f| matches!(f, FailStep::Process)).is_some() {
+        let scripted = self.take_fail(|f| matches!(f, FailStep::Process)).is_some();
+        if self.sh.fault_here() | scripted {
             res = Err(Box::new(Scripted("probe process_events")));
         } else if self.synth_tok == Some(token) {
             callback((self.synthetic.unwrap_or(0), true), &mut ());
@@ -276,7 +277,7 @@ impl<const L: bool> EventSource for Probe<L> {
         let mut keys = vec![];
         let mut result = Ok(());
         for i in 0..self.subs.len() {
-            if fail_at == Some(i) {
+            if self.sh.fault_here() | (fail_at == Some(i)) {
                 // a composite whose (i+1)-th sub-source fails to register: roll back the earlier ones,
                 // as a careful composite would, and report the error
                 for j in 0..i {
@@ -312,7 +313,7 @@ impl<const L: bool> EventSource for Probe<L> {
             }
         }
         if result.is_ok() {
-            if fail_at == Some(self.subs.len()) {
+            if self.sh.fault_here() | (fail_at == Some(self.subs.len())) {
                 for j in 0..self.subs.len() {
                     let _ = self.subs[j].unregister(poll);
                     self.toks[j] = None;
@@ -327,7 +328,7 @@ impl<const L: bool> EventSource for Probe<L> {
     }
 
     fn reregister(&mut self, poll: &mut Poll, tf: &mut TokenFactory) -> calloop::Result<()> {
-        let fail = self.take_fail(|f| matches!(f, FailStep::Reregister(_))).is_some();
+        let fail = self.sh.fault_here() | self.take_fail(|f| matches!(f, FailStep::Reregister(_))).is_some();
         let mut keys = vec![];
         let mut result = Ok(());
         if fail {
@@ -361,7 +362,7 @@ impl<const L: bool> EventSource for Probe<L> {
     }
 
     fn unregister(&mut self, poll: &mut Poll) -> calloop::Result<()> {
-        let fail = self.take_fail(|f| matches!(f, FailStep::Unregister(_))).is_some();
+        let fail = self.sh.fault_here() | self.take_fail(|f| matches!(f, FailStep::Unregister(_))).is_some();
         let mut result = Ok(());
         if fail {
             result = Err(calloop::Error::OtherError(Box::new(Scripted("probe unregister"))));
@@ -381,7 +382,7 @@ impl<const L: bool> EventSource for Probe<L> {
     }
 
     fn before_sleep(&mut self) -> calloop::Result<Option<(Readiness, Token)>> {
-        if self.take_fail(|f| matches!(f, FailStep::BeforeSleep)).is_some() {
+        if self.sh.fault_here() | self.take_fail(|f| matches!(f, FailStep::BeforeSleep)).is_some() {
             self.sh.push(Ev::BeforeSleep { src: self.id, ret: None, err: true });
             return Err(calloop::Error::OtherError(Box::new(Scripted("probe before_sleep"))));
         }
@@ -742,6 +743,8 @@ pub struct WIdle {
 pub struct Opts {
     /// record the epoll table after every top-level step
     pub epoll_each_step: bool,
+    /// fail the fault site with this number (see Shared::fault_here)
+    pub fault_at: Option<u32>,
 }
 
 pub struct WAsync {
@@ -1874,6 +1877,7 @@ impl Ctx {
 pub fn run_history(case: &HistCase, opts: Opts) -> Vec<Ev> {
     crate::panics::clear();
     let sh = Shared::new();
+    sh.fault_at.set(opts.fault_at);
     let mut el: EventLoop<'static, Ctx> = EventLoop::try_new().expect("EventLoop::try_new");
     let epfd = el.as_raw_fd();
     let epoll_each = opts.epoll_each_step;
@@ -1986,6 +1990,7 @@ pub fn run_history(case: &HistCase, opts: Opts) -> Vec<Ev> {
             ctx.idles.clear();
             ctx.srcs.clear();
         }
+        sh.push(Ev::FaultSites { n: sh.fault_seen.get() });
         sh.push(Ev::End);
         sh
     }));
